@@ -70,6 +70,9 @@ def corpus(ctx, rng):
     for i in range(ctx.pick(500, 9000)):
         m = codec.rand_msg(rng, big=False)
         items.append(("msg", m.build() + rng.choice([b"", b"", rng.randbytes(5)]), 0))
+        if i % 4 == 0:      # two messages back to back, the first one often a message with a well-known meaning
+            first = codec.well_known(rng) if rng.random() < 0.6 else codec.rand_msg(rng)
+            items.append(("msg", first.build() + codec.rand_msg(rng).build(), 0))
         s = codec.rand_sd(rng)
         try:
             sb = bytes(s.assign_option_indexes().build())
